@@ -22,6 +22,11 @@ package cgnat
 //
 // two pools on one PoolManager (P = 1 or 2); v = cgnat.Config.Validate of the two-pool configuration.  When it
 // rejects the configuration the case ends there (the loader would refuse it).
+// ev cases: the same Component, but events go through the subscribed entry points (handleSessionLifecycle /
+// handleSessionProgrammed / handleSessionRestored) and the restore-window queue, which is open until Z (drainQueue):
+//	eL:<a|r|o>:<i|p|o>:sid:k[:pattern]  lifecycle event (state active / released / other; access IPoE / PPPoE / other)
+//	eP:<i|p|o>:sid:k:dpok   programmed event      eR:<i|p|o>:sid:k:dpok   restored event      eB   foreign payload
+//	F:n   n lifecycle-active events in a row      Z   drainQueue      plus P D d w of comp cases
 // Late dataplane adds:  L:sid:k activates with the add left in flight, K:sid:ok runs its callback.
 import (
 	"reflect"
@@ -99,6 +104,7 @@ type vf15DP struct {
 	bulk       int
 	lateSid    string
 	lateAdds   map[string]func(error)
+	okByKey    map[uint64]bool // ev cases: outcome of the add for a subscriber, fixed when its event is delivered
 }
 
 func (d *vf15DP) CGNATAddDelSubscriberMappingAsync(poolID, swIfIndex uint32, insideIP net.IP, insideVRFID uint32,
@@ -109,7 +115,11 @@ func (d *vf15DP) CGNATAddDelSubscriberMappingAsync(poolID, swIfIndex uint32, ins
 			d.lateAdds[d.lateSid] = callback
 			return
 		}
-		if d.asyncOK {
+		ok := d.asyncOK
+		if v, found := d.okByKey[vf15Key(insideVRFID, insideIP)]; found {
+			ok = v
+		}
+		if ok {
 			callback(nil)
 		} else {
 			callback(fmt.Errorf("injected dataplane failure"))
@@ -522,7 +532,7 @@ func vf15Setup(kind string, f []string) (*vf15Env, error) {
 		return nil, err
 	}
 	e.geometry()
-	e.dp = &vf15DP{asyncOK: true, lateAdds: map[string]func(error){}}
+	e.dp = &vf15DP{asyncOK: true, lateAdds: map[string]func(error){}, okByKey: map[uint64]bool{}}
 	e.store = &vf15Store{ns: map[string]map[string][]byte{}}
 	e.sp = &vf15Provider{sessions: map[string]models.SubscriberSession{}}
 	cfg := &config.Config{CGNAT: &cgnatcfg.Config{Pools: map[string]*cgnatcfg.Pool{"p1": raw}}}
@@ -552,6 +562,23 @@ func (e *vf15Env) lifecycle(sid string, k uint64, state models.SessionState) *ev
 			IPv4Address: vf15SubIP(k), VRF: vf15VRFName(k)}}
 }
 
+func (e *vf15Env) session(acc string, sid string, k uint64) (models.AccessType, any) {
+	switch acc {
+	case "p":
+		return models.AccessTypePPPoE, &models.PPPSession{SessionID: sid, AccessType: string(models.AccessTypePPPoE), IfIndex: 7,
+			IPv4Address: vf15SubIP(k), VRF: vf15VRFName(k)}
+	case "o":
+		return models.AccessTypeL2TP, &models.IPoESession{SessionID: sid, AccessType: string(models.AccessTypeL2TP), IfIndex: 7,
+			IPv4Address: vf15SubIP(k), VRF: vf15VRFName(k)}
+	}
+	return models.AccessTypeIPoE, &models.IPoESession{SessionID: sid, AccessType: string(models.AccessTypeIPoE), IfIndex: 7,
+		IPv4Address: vf15SubIP(k), VRF: vf15VRFName(k)}
+}
+
+func (e *vf15Env) queueState() string {
+	return fmt.Sprintf(" q=%d/%d", len(e.c.pendingEvents), e.c.queueDropped)
+}
+
 func (e *vf15Env) dpResult() string {
 	if len(e.dp.addCalls) == 0 {
 		return "nodp"
@@ -573,6 +600,42 @@ func (e *vf15Env) op(kind string, tok string) string {
 	e.dp.bulk = 0
 	e.dp.lateSid = ""
 	switch a[0] {
+	case "eL":
+		st := map[string]models.SessionState{"a": models.SessionStateActive, "r": models.SessionStateReleased}[a[1]]
+		if st == "" {
+			st = models.SessionState("expired")
+		}
+		if len(a) > 5 {
+			e.dp.delPattern = a[5]
+		}
+		at, sess := e.session(a[2], a[3], n(4))
+		e.c.handleSessionLifecycle(events.Event{Data: &events.SessionLifecycleEvent{AccessType: at, SessionID: a[3], State: st, Session: sess}})
+		return e.dpResult() + e.queueState()
+	case "eP":
+		e.dp.okByKey[n(3)] = a[4] == "1"
+		at, sess := e.session(a[1], a[2], n(3))
+		e.c.handleSessionProgrammed(events.Event{Data: &events.SessionLifecycleEvent{AccessType: at, SessionID: a[2], State: models.SessionStateActive, Session: sess}})
+		return e.dpResult() + e.queueState()
+	case "eR":
+		e.dp.okByKey[n(3)] = a[4] == "1"
+		at, sess := e.session(a[1], a[2], n(3))
+		ss, _ := sess.(models.SubscriberSession)
+		e.c.handleSessionRestored(events.Event{Data: &events.SessionRestoredEvent{AccessType: at, SessionID: a[2], Session: ss}})
+		return e.dpResult() + e.queueState()
+	case "eB":
+		e.c.handleSessionLifecycle(events.Event{Data: "foreign payload"})
+		e.c.handleSessionProgrammed(events.Event{Data: 7})
+		e.c.handleSessionRestored(events.Event{Data: &events.SessionLifecycleEvent{}})
+		return e.dpResult() + e.queueState()
+	case "F":
+		at, sess := e.session("i", "0", 0)
+		for i := uint64(0); i < n(1); i++ {
+			e.c.handleSessionLifecycle(events.Event{Data: &events.SessionLifecycleEvent{AccessType: at, SessionID: "0", State: models.SessionStateActive, Session: sess}})
+		}
+		return "ok" + e.queueState()
+	case "Z":
+		e.c.drainQueue()
+		return e.dpResult() + e.queueState()
 	case "L":
 		e.dp.lateSid = a[1]
 		e.c.handleSessionActivate(e.lifecycle(a[1], n(2), models.SessionStateActive))
